@@ -322,6 +322,173 @@ fn gadget_flags(c0: &[i128], again: &[i128], cpt: &[i128], cxe: &[i128], cxa: &[
          (bodies(cxe) == bodies(c0)) as i128, (masks(cxa) == masks(c0)) as i128]
 }
 
+// ------------------------------------------------------------------ 6007 / 6008: scheme-layer encryption entry points taking both sources
+/// ps = [be, n, b, size, nk, log_delta, log_budget of the plaintext, value / plaintext class, seed_xs(4), seed_xe(4), seed_xa(4)]
+/// 6007 CKKS `ckks_encrypt_sk` (rank 1), 6008 binary FHE `FheUint::<u32>::encrypt_sk` (rank ps[6])
+/// out = [mask columns (1..rank, limb-major); [deterministic; mask_eq(other plaintext); mask_eq(other error seed);
+///        body_eq(other error seed); mask_eq(other mask seed)]];  vs = [ua; e; ua'; e'] (raw mask stream and replayed errors of the two
+/// mask / error seeds): the model predicts the mask from the stream of the MASK seed.
+fn scheme_case(code: i64, p: &[i128]) -> (Vec<Vec<i128>>, Vec<Vec<i128>>) {
+    let u = |i: usize| p[i] as usize;
+    let (be, n, b, size, nk) = (p[0], u(1), u(2), u(3), u(4));
+    let (sxs, sxe, sxa) = (words_seed(&p[8..12]), words_seed(&p[12..16]), words_seed(&p[16..20]));
+    let noise = NoiseInfos::new(nk, 3.2, 19.2).unwrap();
+    with_be!(be, BE, {
+        let module: Module<BE> = Module::<BE>::new(n as u64);
+        let mut sc: ScratchOwned<BE> = garbage_scratch::<BE>(1 << 22);
+        let rank = if code == 6007 { 1 } else { u(6) };
+        let (sk, _) = glwe_secret(n, rank, 0, 8, &sxs);
+        let mut skp = module.glwe_secret_prepared_alloc(Rank(rank as u32));
+        module.glwe_secret_prepare(&mut skp, &sk);
+        let mut run = |alt: bool, xe: &[u8; 32], xa: &[u8; 32]| -> Vec<i128> {
+            if code == 6007 {
+                use poulpy_ckks::{CKKSMeta, layouts::{CKKSCiphertext, plaintext::CKKSPlaintextVecZnx}, leveled::api::CKKSEncrypt};
+                let meta = CKKSMeta { log_delta: u(5), log_budget: u(6) };
+                let mut pt = CKKSPlaintextVecZnx::alloc(Degree(n as u32), Base2K(b as u32), meta);
+                let mut g = Rng::new(p[7] as u64 ^ alt as u64);
+                let psz = pt.data.size();
+                let w = message(&mut g, n, psz, b, 0);
+                set_col(&mut pt.data, 0, &w);
+                let mut ct = CKKSCiphertext::alloc(Degree(n as u32), TorusPrecision((size * b) as u32), Base2K(b as u32));
+                // NOTE the argument order of this entry point: (source_xa, source_xe)
+                module.ckks_encrypt_sk(&mut ct, &pt, &skp, &noise, &mut Source::new(*xa), &mut Source::new(*xe), sc.borrow()).unwrap();
+                all_cols(ct.data())
+            } else {
+                use poulpy_bin_fhe::bdd_arithmetic::FheUint;
+                let mut ct = FheUint::<Vec<u8>, u32>::alloc(Degree(n as u32), Base2K(b as u32), TorusPrecision((size * b) as u32), Rank(rank as u32));
+                ct.encrypt_sk(&module, (p[7] as u32) ^ (alt as u32), &skp, &noise, &mut Source::new(*xe), &mut Source::new(*xa), sc.borrow());
+                all_cols(ct.to_ref().data())
+            }
+        };
+        let c0 = run(false, &sxe, &sxa);
+        let bw = size * n;
+        let cs = [run(false, &sxe, &sxa), run(true, &sxe, &sxa), run(false, &flip_seed(&sxe), &sxa), run(false, &sxe, &flip_seed(&sxa))];
+        let flags = vec![(cs[0] == c0) as i128, (cs[1][bw..] == c0[bw..]) as i128, (cs[2][bw..] == c0[bw..]) as i128,
+                         (cs[2][..bw] == c0[..bw]) as i128, (cs[3][bw..] == c0[bw..]) as i128];
+        let e = |sd: &[u8; 32]| to128(&replay_error(&module, n, b, size, noise, &mut Source::new(*sd)));
+        (vec![raw_u64(&sxa, rank * size * n), e(&sxe), raw_u64(&flip_seed(&sxa), rank * size * n), e(&flip_seed(&sxe))],
+         vec![c0[bw..].to_vec(), flags])
+    })
+}
+
+// ------------------------------------------------------------------ 6009: composite binary-FHE key generation from one error and one mask source
+/// ps = [be, n, b, size, nk, kind, rank, n_lwe, dnum_atk, dnum_brk, dnum_tsk, dnum_ks_lwe, rank', dnum_ks_glwe, secret kind, param,
+///       seed_xs(4), seed_xl(4), seed_xe(4), seed_xa(4)];  kind 0 `CircuitBootstrappingKey::encrypt_sk`, 1 `BDDKey::encrypt_sk` without
+/// GLWE bridge, 2 with a GLWE bridge of rank rank' (its secret is drawn from the ERROR source first).
+/// out = [mask columns of every cell in encryption order (segment, entry, slot); [deterministic; mask_eq(other secrets);
+///        mask_eq(other error seed); body_eq(other error seed); mask_eq(other mask seed); masks pairwise distinct]]
+/// vs = [ua; xe-draws; ua'; xe'-draws] (whole raw mask stream / everything replayed from the error source, for both seeds)
+fn keygen_case(p: &[i128]) -> (Vec<Vec<i128>>, Vec<Vec<i128>>) {
+    use poulpy_bin_fhe::bdd_arithmetic::{BDDEncryptionInfos, BDDKey, BDDKeyLayout};
+    use poulpy_bin_fhe::blind_rotation::{BlindRotationKey, BlindRotationKeyLayout, CGGI};
+    use poulpy_bin_fhe::circuit_bootstrapping::{CircuitBootstrappingEncryptionInfos, CircuitBootstrappingKey, CircuitBootstrappingKeyLayout};
+    use std::io::Read;
+    let u = |i: usize| p[i] as usize;
+    let (be, n, b, size, nk, kind, rank, nl) = (p[0], u(1), u(2), u(3), u(4), p[5], u(6), u(7));
+    let (da, db, dt, dk, rk2, dg, skind, sparam) = (u(8), u(9), u(10), u(11), u(12), u(13), p[14], p[15]);
+    let sd = |i: usize| words_seed(&p[16 + 4 * i..20 + 4 * i]);
+    let (sxs, sxl, sxe, sxa) = (sd(0), sd(1), sd(2), sd(3));
+    let noise = NoiseInfos::new(nk, 3.2, 19.2).unwrap();
+    let (dn, b2, kk, rk) = (Degree(n as u32), Base2K(b as u32), TorusPrecision((size * b) as u32), Rank(rank as u32));
+    let brk_l = BlindRotationKeyLayout { n_glwe: dn, n_lwe: Degree(nl as u32), base2k: b2, k: kk, dnum: Dnum(db as u32), rank: rk };
+    let atk_l = GLWEAutomorphismKeyLayout { n: dn, base2k: b2, k: kk, rank: rk, dnum: Dnum(da as u32), dsize: Dsize(1) };
+    let tsk_l = GGLWEToGGSWKeyLayout { n: dn, base2k: b2, k: kk, rank: rk, dnum: Dnum(dt as u32), dsize: Dsize(1) };
+    let cbt_l = CircuitBootstrappingKeyLayout { brk_layout: brk_l, atk_layout: atk_l, tsk_layout: tsk_l };
+    let ksg_l = GLWESwitchingKeyLayout { n: dn, base2k: b2, k: kk, rank_in: rk, rank_out: Rank(rk2 as u32), dnum: Dnum(dg as u32), dsize: Dsize(1) };
+    let ksl_l = GLWEToLWEKeyLayout { n: dn, base2k: b2, k: kk, rank_in: if kind == 2 { Rank(rk2 as u32) } else { rk }, dnum: Dnum(dk as u32) };
+    let bdd_l = BDDKeyLayout { cbt_layout: cbt_l, ks_glwe_layout: if kind == 2 { Some(ksg_l) } else { None }, ks_lwe_layout: ksl_l };
+    let cbt_e = CircuitBootstrappingEncryptionInfos { brk: noise, atk: noise, tsk: noise };
+    let bdd_e = BDDEncryptionInfos { cbt: CircuitBootstrappingEncryptionInfos { brk: noise, atk: noise, tsk: noise }, ks_glwe: if kind == 2 { Some(noise) } else { None }, ks_lwe: noise };
+    let natk = log2_ceil(n);
+    with_be!(be, BE, {
+        let module: Module<BE> = Module::<BE>::new(n as u64);
+        let mut sc: ScratchOwned<BE> = garbage_scratch::<BE>(1 << 23);
+        // one generation: (bodies, masks) of every cell, encryption order
+        let mut run = |xs: &[u8; 32], xl: &[u8; 32], xe: &[u8; 32], xa: &[u8; 32]| -> (Vec<i128>, Vec<Vec<i128>>) {
+            let (sk, _) = glwe_secret(n, rank, skind, sparam, xs);
+            let mut skl = LWESecret::alloc(Degree(nl as u32));
+            fill_lwe_secret(&mut skl, 2, 8, &mut Source::new(*xl));
+            let (mut xe, mut xa) = (Source::new(*xe), Source::new(*xa));
+            let bytes = if kind == 0 {
+                let mut key = CircuitBootstrappingKey::<Vec<u8>, CGGI>::alloc_from_infos(&cbt_l);
+                key.encrypt_sk(&module, &skl, &sk, &cbt_e, &mut xe, &mut xa, sc.borrow());
+                ser(&key)
+            } else {
+                let mut key = BDDKey::<Vec<u8>, CGGI>::alloc_from_infos(&bdd_l);
+                key.encrypt_sk(&module, &skl, &sk, &bdd_e, &mut xe, &mut xa, sc.borrow());
+                ser(&key)
+            };
+            // the fields are private: read the parts back from the serialisation (brk, count, (galois element, atk)*, tsk, [tag, bridge], ks_lwe)
+            let mut cur = std::io::Cursor::new(&bytes[..]);
+            let mut brk = BlindRotationKey::<Vec<u8>, CGGI>::alloc(&brk_l);
+            brk.read_from(&mut cur).unwrap();
+            let mut w8 = [0u8; 8];
+            cur.read_exact(&mut w8).unwrap();
+            assert_eq!(u64::from_le_bytes(w8) as usize, natk, "number of automorphism keys");
+            let (mut bodies, mut masks): (Vec<i128>, Vec<Vec<i128>>) = (vec![], vec![]);
+            let bw = size * n;
+            let push = |w: Vec<i128>, rout: usize, bodies: &mut Vec<i128>, masks: &mut Vec<Vec<i128>>| {
+                for c in w.chunks((rout + 1) * bw) { bodies.extend_from_slice(&c[..bw]); masks.push(c[bw..].to_vec()); }
+            };
+            let dump = |g: &GGLWE<&[u8]>, dnum: usize, rin: usize| -> Vec<i128> {
+                let mut w = Vec::new();
+                for row in 0..dnum { for col in 0..rin { w.extend(all_cols(g.at(row, col).data())); } }
+                w
+            };
+            let (mut atk_b, mut atk_m) = (vec![], vec![]);
+            let mut last = i64::MIN;
+            for _ in 0..natk {
+                cur.read_exact(&mut w8).unwrap();
+                let gal = i64::from_le_bytes(w8);
+                assert!(gal > last, "automorphism keys are serialised by increasing Galois element"); last = gal;
+                let mut a = GLWEAutomorphismKey::alloc(dn, b2, kk, rk, Dnum(da as u32), Dsize(1));
+                a.read_from(&mut cur).unwrap();
+                push(dump(&a.to_ref(), da, rank), rank, &mut atk_b, &mut atk_m);
+            }
+            let mut tsk = GGLWEToGGSWKey::alloc(dn, b2, kk, rk, Dnum(dt as u32), Dsize(1));
+            tsk.read_from(&mut cur).unwrap();
+            if kind != 0 {
+                let mut t = [0u8; 1];
+                cur.read_exact(&mut t).unwrap();
+                assert_eq!(t[0] as i128, (kind == 2) as i128, "bridge tag");
+                if kind == 2 {
+                    let mut g = GLWESwitchingKey::alloc(dn, b2, kk, rk, Rank(rk2 as u32), Dnum(dg as u32), Dsize(1));
+                    g.read_from(&mut cur).unwrap();
+                    push(dump(&g.to_ref(), dg, rank), rk2, &mut bodies, &mut masks);
+                }
+                let rin = if kind == 2 { rk2 } else { rank };
+                let mut g = GLWEToLWEKey::alloc(dn, b2, kk, Rank(rin as u32), Dnum(dk as u32));
+                g.read_from(&mut cur).unwrap();
+                push(dump(&g.to_ref(), dk, rin), 1, &mut bodies, &mut masks);
+            }
+            assert_eq!(cur.position() as usize, bytes.len(), "serialisation fully consumed");
+            bodies.extend(atk_b); masks.extend(atk_m);
+            let by = ser(&brk);
+            for i in 0..nl { push(brk_cells(&by, i, n, size, rank, db), rank, &mut bodies, &mut masks); }
+            for i in 0..rank { push(dump(&tsk.at(i).to_ref(), dt, rank), rank, &mut bodies, &mut masks); }
+            (bodies, masks)
+        };
+        let c0 = run(&sxs, &sxl, &sxe, &sxa);
+        let cs = [run(&sxs, &sxl, &sxe, &sxa), run(&flip_seed(&sxs), &flip_seed(&sxl), &sxe, &sxa),
+                  run(&sxs, &sxl, &flip_seed(&sxe), &sxa), run(&sxs, &sxl, &sxe, &flip_seed(&sxa))];
+        let mut distinct = 1i128;
+        for i in 0..c0.1.len() { for j in 0..i { if c0.1[i] == c0.1[j] { distinct = 0; } } }
+        let flags = vec![(cs[0] == c0) as i128, (cs[1].1 == c0.1) as i128, (cs[2].1 == c0.1) as i128, (cs[2].0 == c0.0) as i128,
+                         (cs[3].1 == c0.1) as i128, distinct];
+        let words: usize = c0.1.iter().map(|m| m.len()).sum();
+        let cells = c0.1.len();
+        let drawn = |seed: &[u8; 32]| -> Vec<i128> {
+            let mut xe = Source::new(*seed);
+            let mut out: Vec<i128> = vec![];
+            if kind == 2 { for _ in 0..rk2 { out.extend(to128(&replay_scalar(n, 0, 8, &mut xe))); } }
+            for _ in 0..cells { out.extend(to128(&replay_error(&module, n, b, size, noise, &mut xe))); }
+            out
+        };
+        (vec![raw_u64(&sxa, words), drawn(&sxe), raw_u64(&flip_seed(&sxa), words), drawn(&flip_seed(&sxe))],
+         vec![c0.1.concat(), flags])
+    })
+}
+
 // ------------------------------------------------------------------ 6006: seed derivation of the compressed composite objects
 /// (seeds in slot order, bytes consumed) of a serialised GGLWECompressed / GGSWCompressed starting at `skip`
 fn parse_seeds(bytes: &[u8], skip: usize) -> (Vec<[u8; 32]>, usize) {
@@ -572,6 +739,8 @@ pub fn exec(r: &Rec) -> Out {
         6001 | 6002 => two_fills(|| flip_case(r2.code, &r2.ps, &r2.vs[0]).1),
         6004 | 6005 => two_fills(|| gadget_case(r2.code, &r2.ps, &r2.vs[0]).1),
         6006 => two_fills(|| seeds_case(&r2.ps).1),
+        6007 | 6008 => two_fills(|| scheme_case(r2.code, &r2.ps).1),
+        6009 => two_fills(|| keygen_case(&r2.ps).1),
         6020 => vec![stats_case(&r2.ps)],
         _ => panic!("c06: unknown op"),
     })
@@ -655,6 +824,43 @@ pub fn generate(tier: &str, seed: u64) -> Vec<Rec> {
         let mut vs = if (code == 6004 || brk) && !derived.is_empty() { vec![] } else { vec![msg.clone()] };
         vs.extend(derived);
         out.push(Rec::new(code, ps, vs));
+    }
+    // ---- scheme-layer entry points that take both sources: CKKS ckks_encrypt_sk, binary-FHE FheUint::encrypt_sk
+    let reps = if tier == "thorough" { 400 } else { 80 };
+    for it in 0..reps {
+        let code = if it % 2 == 0 { 6007 } else { 6008 };
+        let be = 1 + (it / 2) as i128 % 4;
+        // CKKS rejects plaintext metadata that does not fit the ciphertext (Err / panic): draw again until the call is accepted
+        for _attempt in 0..12 {
+            let n = if code == 6008 { rng.pick(&[32usize, 64]) } else { 1usize << rng.range(3, 6) };
+            let b = rng.range(10, if be <= 2 { 40 } else { 52 }) as usize;
+            let size = rng.range(3, 5) as usize;
+            let (nk, x5, x6) = if code == 6007 {
+                let ld = rng.range(8, (2 * b) as i64 - 4) as usize;
+                let nk = rng.range((ld + 4) as i64, (size * b) as i64) as usize;
+                (nk, ld, rng.range(1, (nk - ld) as i64) as usize)
+            } else { (rng.range(4, (size * b) as i64) as usize, 0, rng.range(0, 2) as usize) };
+            let mut ps: Vec<i128> = vec![be, n as i128, b as i128, size as i128, nk as i128, x5 as i128, x6 as i128, rng.below(1 << 32) as i128];
+            for _ in 0..3 { ps.extend(seed_words(&rng.bytes32())); }
+            if let Ok(vs) = std::panic::catch_unwind(|| scheme_case(code, &ps).0) { out.push(Rec::new(code, ps, vs)); break; }
+        }
+    }
+    // ---- composite binary-FHE key generation (circuit-bootstrapping key, BDD key with / without GLWE bridge)
+    let reps = if tier == "thorough" { 120 } else { 24 };
+    for it in 0..reps {
+        let be = 1 + it as i128 % 4;
+        let kind = (it / 4) as i128 % 3;
+        let n = 1usize << rng.range(3, 4);
+        let b = rng.range(10, if be <= 2 { 30 } else { 40 }) as usize;
+        let size = rng.range(2, 3) as usize;
+        let nk = rng.range(4, (size * b) as i64) as usize;
+        let rank = rng.range(1, 2) as usize;
+        let d = |rng: &mut Rng| rng.range(1, size as i64) as i128;
+        let mut ps: Vec<i128> = vec![be, n as i128, b as i128, size as i128, nk as i128, kind, rank as i128, rng.range(2, 4) as i128,
+                                     d(&mut rng), d(&mut rng), d(&mut rng), d(&mut rng), rng.range(1, 2) as i128, d(&mut rng), rng.pick(&[0i128, 2]), 8];
+        for _ in 0..4 { ps.extend(seed_words(&rng.bytes32())); }
+        let vs = keygen_case(&ps).0;
+        out.push(Rec::new(6009, ps, vs));
     }
     // ---- seed derivation and pairwise-distinct masks of the compressed composite objects
     let reps = if tier == "thorough" { 420 } else { 84 };
